@@ -2,7 +2,6 @@ package node
 
 import (
 	"fmt"
-	"net/url"
 	"strings"
 
 	"github.com/freeconf/yang/fc"
@@ -26,12 +25,9 @@ func (sel *Selection) Find(path string) (*Selection, error) {
 		return nil, err
 	}
 	if qmark := strings.IndexRune(p, '?'); qmark >= 0 {
-		// use URL parser just to decode the query parameters
-		u, err := url.Parse(p)
-		if err != nil {
-			return nil, err
-		}
-		params, err := parseQuery(u.RawQuery)
+		// only the query parameters are decoded here. (the URL parser would take a colon in the
+		// first segment, of a module name or a key, for the end of a scheme and refuse the path)
+		params, err := parseQuery(p[qmark+1:])
 		if err != nil {
 			return nil, err
 		}
